@@ -301,7 +301,7 @@ func buildReplay(v *Violation, params map[string]int) (*replayRec, bool) {
 
 // nativeReplay compiles the harness against the real package and runs the entry
 // with the recorded values. Returns "reproduced", "not-reproduced" or "error".
-func nativeReplay(rec *replayRec, replayPath string) (string, string) {
+func nativeReplay(rec *replayRec, replayPath string, attempts int) (string, string) {
 	// entry: import/path.Func
 	i := strings.LastIndex(rec.Entry, ".")
 	pkgPath, fn := rec.Entry[:i], rec.Entry[i+1:]
@@ -373,30 +373,38 @@ func TestVerifReplay(t *testing.T) {
 	if bout, berr := build.CombinedOutput(); berr != nil {
 		return "error", "native build failed: " + string(bout)
 	}
-	cmd := exec.Command(bin, "-test.run", "^TestVerifReplay$", "-test.v", "-test.timeout", "120s")
-	cmd.Dir = tmp
-	cmd.Env = env
-	done := make(chan struct{})
-	var out []byte
-	go func() {
-		out, err = cmd.CombinedOutput()
-		close(done)
-	}()
-	select {
-	case <-done:
-	case <-time.After(300 * time.Second):
-		cmd.Process.Kill()
-		return "error", "native replay timed out"
-	}
-	txt := string(out)
 	want := rec.Label
-	switch {
-	case strings.Contains(txt, "REPLAY-FAILED "+want+"\n"):
-		return "reproduced", txt
-	case strings.Contains(rec.Label, "/crash") && (strings.Contains(txt, "REPLAY-PANIC") || strings.Contains(txt, "panic:")):
-		return "reproduced", txt
-	case strings.Contains(txt, "REPLAY-DONE"):
-		return "not-reproduced", txt
+	last := ""
+	for i := 1; i <= attempts; i++ {
+		cmd := exec.Command(bin, "-test.run", "^TestVerifReplay$", "-test.v", "-test.timeout", "60s")
+		cmd.Dir = tmp
+		cmd.Env = env
+		done := make(chan struct{})
+		var out []byte
+		go func() {
+			out, err = cmd.CombinedOutput()
+			close(done)
+		}()
+		select {
+		case <-done:
+		case <-time.After(90 * time.Second):
+			cmd.Process.Kill()
+			<-done
+		}
+		txt := string(out)
+		last = txt
+		tag := fmt.Sprintf(" (attempt %d of %d)", i, attempts)
+		switch {
+		case strings.Contains(txt, "REPLAY-FAILED "+want+"\n"):
+			return "reproduced" + tag, txt
+		case (strings.Contains(rec.Label, "/crash")) && (strings.Contains(txt, "REPLAY-PANIC") || strings.Contains(txt, "panic:")):
+			return "reproduced" + tag, txt
+		case (strings.Contains(rec.Label, "/stuck")) && (strings.Contains(txt, "test timed out") || !strings.Contains(txt, "REPLAY-DONE")):
+			return "reproduced" + tag, txt
+		}
 	}
-	return "error", txt
+	if strings.Contains(last, "REPLAY-DONE") {
+		return "not-reproduced", last
+	}
+	return "error", last
 }
